@@ -235,3 +235,56 @@ example :
   decide
 
 end Remoc.Table.Sys
+
+namespace Remoc.Table.Sys
+open Remoc.Wire Remoc.Table
+
+/-- **The right ports are paired, globally** (all interleavings).  In every reachable state:
+* a connected port `p` of one side with remote port `q`, of which a local half is still alive, has a
+  *live partner*: the peer's entry `q` is connected back to `p`, or is still connecting with the
+  `PortOpened q p` in flight (`Live`);
+* **no third port**: at most one port of a side has a given peer entry as live partner;
+* so if both `X[p]` (remote `q`, a half alive) and `Y[q]` are connected, `Y[q].remote = p`.
+A port whose partner is gone (freed on the other side) has dropped both local halves. -/
+theorem pairs_right_global (mpA cqA mpB cqB : Nat) (ls : List (Who × Lab)) :
+    let s := run (init mpA cqA mpB cqB) ls
+    (∀ p c, lookup s.a.ep.ports p = some (.connected c) →
+        (c.senderDropped = false ∨ c.receiverDropped = false) → Live s.b.ep s.toB p c.remote) ∧
+    (∀ p c, lookup s.b.ep.ports p = some (.connected c) →
+        (c.senderDropped = false ∨ c.receiverDropped = false) → Live s.a.ep s.toA p c.remote) ∧
+    (∀ p p' q, Live s.b.ep s.toB p q → Live s.b.ep s.toB p' q → p = p') ∧
+    (∀ p p' q, Live s.a.ep s.toA p q → Live s.a.ep s.toA p' q → p = p') := by
+  intro s
+  have hi := inv2_run _ ls (inv2_init mpA cqA mpB cqB)
+  refine ⟨fun p c hc hf => ?_, fun p c hc hf => ?_, fun p p' q h1 h2 => ?_, fun p p' q h1 h2 => ?_⟩
+  · rcases hf with hf | hf
+    · exact ((hi.pab.tx p c hc).sd0 hf).1
+    · exact ((hi.pab.tx p c hc).rd0 hf).1
+  · rcases hf with hf | hf
+    · exact ((hi.pba.tx p c hc).sd0 hf).1
+    · exact ((hi.pba.tx p c hc).rd0 hf).1
+  · exact Live.unique (reqInv_resp_nodup hi.r.ba) h1 h2
+  · exact Live.unique (reqInv_resp_nodup hi.r.ab) h1 h2
+
+/-- both entries connected and a half of `p` alive: they reference each other -/
+theorem pairs_mutual (mpA cqA mpB cqB : Nat) (ls : List (Who × Lab)) (p : Nat) (c d : Connected) :
+    let s := run (init mpA cqA mpB cqB) ls
+    lookup s.a.ep.ports p = some (.connected c) → (c.senderDropped = false ∨ c.receiverDropped = false) →
+    lookup s.b.ep.ports c.remote = some (.connected d) → d.remote = p := by
+  intro s hc hf hd
+  rcases (pairs_right_global mpA cqA mpB cqB ls).1 p c hc hf with ⟨d', hd', hr⟩ | ⟨hcn, _⟩
+  · have : s.b.ep = (run (init mpA cqA mpB cqB) ls).b.ep := rfl
+    rw [hd] at hd'; injection hd' with h; injection h with h; rw [h]; exact hr
+  · rw [hd] at hcn; simp at hcn
+
+/-- non-vacuity: after connect / accept / delivery of `PortOpened` the ports 1@A and 7@B reference
+each other; before the delivery the partner of 7@B is the connecting port 1@A with the answer in flight -/
+example :
+    let s := run (init 4 2 4 2) [(.A, .startConnect 1 true), (.A, .dispConn), (.B, .deliver), (.B, .takeReq true),
+      (.B, .acceptReq 1 7), (.B, .dispPort)]
+    lookup s.a.ep.ports 1 = some .connecting ∧ s.toA = [.portOpened 1 7] ∧
+    (connectedAt s.b.ep 7).map (·.remote) = some 1 ∧
+    (connectedAt (run s [(.A, .deliver)]).a.ep 1).map (·.remote) = some 7 := by
+  decide
+
+end Remoc.Table.Sys
